@@ -10,5 +10,6 @@ mkdir -p bin build evidence replays
 ./bin/mcgen -src /repo -out build/gen/mpb
 ./bin/mcgen -nofuel -src scen -out build/gen/scen -replace "github.com/vbauerster/mpb/v8=>/verif/build/gen/mpb"
 (cd mc && go build -o /verif/build/mc-setup . && rm -f /verif/build/mc-setup)
+./mcrt/racelitmus/run.sh
 (cd realrepro && go vet ./... >/dev/null 2>&1 || true)
 echo "setup ok"
